@@ -199,4 +199,16 @@ PROPS["C19"] = dict(
                  "so the path-operation clauses of C19 (get/insert/remove on types) are NOT decided by this check"],
 )
 
+PROPS["C12"] = dict(
+    level="proof",
+    text="compile-time constants vs runtime values, the pieces that are per-function contracts (Verus on extracted real bodies): Details::merge keeps a constant only if both sides agree; Variable::resolve_constant is the binding's constant; Target::insert_type_def records the rhs constant only for whole-variable assignments and changes no other variable; DelFn::type_info drops the constant of a variable it deletes from; Op::resolve_constant folds + - * / with exactly the helper Op::resolve calls at runtime",
+    verus=["v_constants", "v_op_constant"],
+    kani=[],
+    trusted=["verus prelude typestate.rs: LocalEnv bindings as a ghost map (HashMap get/insert contracts), TypeDef/Kind opaque", "child contracts: Expr::resolve_constant = uninterpreted spec_const; arithmetic helpers are deterministic functions (spec_try_*), their values are decided under C10/C11",
+             "the store-agreement invariant (every recorded constant equals the runtime variable) and its preservation by all other nodes is the paper induction of DESIGN section 2; only the listed nodes are machine-checked"],
+    not_covered=["closures: FunctionCall::type_info ignores what a closure body assigns (`x = 2; for_each([1]) -> |_i, v| { x = 0 }; 10 / x` compiles as infallible and divides by zero) - observed by hand, upstream issue 13782, no unit decides it",
+                 "constants of event/metadata paths (ExternalEnv target value), IfStatement/Block merging (delegates to Details::merge via LocalEnv::merge, which is HashMap iteration)", "literal-only argument checks of stdlib functions"],
+    technique="contract-based deductive verification (Verus on mechanically extracted real bodies)",
+)
+
 HOOK_COMMITS = ["8978857", "33091a8"]
